@@ -184,6 +184,21 @@ class HoistSetupCallsIntoConditionals(RewritePattern):
         old_in_state = op.in_state
         assert isinstance(old_in_state, OpResult)
 
+        # Step 0: the setup has to follow the scf.if in the same block, and every value it
+        # uses must already be available in front of the scf.if
+        if_op = op.in_state.owner
+        block = op.parent_block()
+        if block is None or if_op.parent_block() is not block:
+            return
+        if_index = block.get_operation_index(if_op)
+        for val in op.values:
+            if (
+                isinstance(val, OpResult)
+                and val.owner.parent_block() is block
+                and block.get_operation_index(val.owner) >= if_index
+            ):
+                return
+
         # Step 1: Check that it's legal to move:
         # grab all launch op uses of the SSA value produced by the scf.if
         # this will only find things that happen *after* the scf.if, so nothing
